@@ -34,6 +34,42 @@ CHECKS = {
          "of the whole sequence. Non-mutation of the weights argument is an aliasing fact: monitored on every chain step, "
          "not proved. WH flavours: see C08.",
          "5 C03", "Coq proof (fold/append, refinement from arbitrary start state) + chained differential runs + argument snapshots"),
+ "C07": ("proof", "Theorems C07_split_join / C07_join_split / C07_join_nil_is_empty_name, C07_read_write (+_slice, _container): "
+         "parse_file (write_file c es) = es for both values of compatible and every container form; C07_frequency (+_copies, "
+         "_zero, _numerals, _counts): a frequency column means that many copies for reading and counting; C07_input_form: any "
+         "function of the events (learning) gives the same result on the spooled file. Correspondence X-text: writer and reader "
+         "code point for code point over all Unicode planes, hand-written frequency files, cues_outcomes, and the learners "
+         "given path string / path object / generator / iterable compared exactly.",
+         "5 C07", "Coq proof (split/join round trip, reader state machine) + exact differential correspondence"),
+ "C09": ("proof", "Theorems C09_state_machine_eq_spec / C09_lines_eq_spec (the loop-faithful model of create_event_file, incl. the "
+         "captured-marker quirk of re.split, equals the documented windowing spec for every corpus, oracle and option "
+         "combination), C09_no_context_bleeding, C09_window_within_one_document, C09_windows_consecutive_char, C09_ngrams_*, "
+         "C09_callable_eq_regex, C09_never_overwrites. Oracles (str.lower, isspace, allowed set) are universally quantified "
+         "in the theorems and tabulated with CPython at run time. Correspondence X-window over all 216 option cells.",
+         "5 C09", "Coq proof (state machine = declarative spec) + line-exact differential correspondence"),
+ "C10": ("proof", "Theorems C10_imap_chunked_eq_map / C10_imap_pool_eq_map (every chunk size, every completion order of the pool "
+         "tasks), C10_filter_eq_filter_map, C10_dropped_iff_no_cue_left, C10_outcome_less_kept, C10_keep_eq_remove_complement, "
+         "C10_identity_map_eq_keep, C10_keep/remove/line/file_idempotent, with refuted contrasts (imap_unordered, identity map "
+         "containing '', rename rules). Correspondence X-filter: output text code point for code point, the four laws on the "
+         "real outputs, every chunk size and n_jobs giving identical bytes.",
+         "5 C10", "Coq proof (filter_map, chunking, idempotence through parse/format) + exact differential correspondence"),
+ "C11": ("proof", "Theorems C11_strided_slices_partition (Permutation, every n >= 1 also n > len), C11_cues_outcomes / "
+         "C11_words_symbols (merged counters and n_events = direct count of the frequency-expanded file for every process "
+         "count; raises exactly when the sequential read raises), *_n_jobs_irrelevant. Correspondence X-count: event and corpus "
+         "files incl. empty ones, n_jobs 1..32, lower_case, exact Counter comparison with the model and across n_jobs.",
+         "5 C11", "Coq proof (strided partition, counter merge) + exact differential correspondence"),
+ "C16": ("proof", "Theorems C16_entries (k calls -> exactly k ' | '-separated entries per attribute, in call order), C16_mixed_keys, "
+         "C16_number_events (+_sources: chunk jobs, asserted count and loop counter all equal the expanded event count), "
+         "C16_parameters, C16_attrs_are_strings, C16_split_join, with refuted lemmas delimiting the hypotheses (late keys, "
+         "separator inside a path, non-Python-number alpha). netCDF serialisation is a library: modelled as the identity and "
+         "CHECKED (values bit-identical, labels, attrs, continuation from the loaded array), not proved - partial for that half.",
+         "5 C16", "Coq proof (attribute accumulation, split/join) + exact differential correspondence + netCDF round-trip check"),
+ "C20": ("proof", "Theorems C20_band_fuel_sufficient (termination: the out-of-fuel branch is unreachable), C20_band_subset / "
+         "_members / _words_distinct, C20_band_size (|sample| <= sample_size, invariant on the accumulator, proven in full), "
+         "C20_counter_roundtrip (+_map), with refuted lemmas for zero frequencies and dirty keys. Correspondence X-band: the "
+         "shuffle is pinned from the test side; exact sample equality when the step is a dyadic double, the four predicates on "
+         "every case; counter files incl. the '' key.",
+         "5 C20", "Coq proof (loop invariant, termination measure, text round trip) + differential correspondence with pinned shuffle"),
  "C13": ("proof", "Theorems C13_row_locality, C13_equivariance, C13_cue_order, C13_affine_in_W0, C13_learn0_additive, "
          "C13_proportional_to_lambda, C13_beta2_zero_absent_rows_fixed, C13_alpha_zero_column_fixed for RWSpec.learn over "
          "every commutative ring. The check evaluates each law as a relation between runs of the real learners and runs "
